@@ -396,13 +396,21 @@ def eval : Expr → Res
         else (eval f).bind fun x => .val (cvt (condType ta tb) x)
       | _, _ => .illformed
 
+/-- some floating literal of `e` lies outside the subset this file converts exactly -/
+def hasUnsupported : Expr → Bool
+  | .lit l => litVal l == .unsupported
+  | .paren e => hasUnsupported e
+  | .un _ e => hasUnsupported e
+  | .bin _ l r => hasUnsupported l || hasUnsupported r
+  | .tern c t f => hasUnsupported c || hasUnsupported t || hasUnsupported f
+
 /-- the meaning of the text: ill-formed programs have none; otherwise what the abstract machine computes -/
 def evalTop (e : Expr) : Res :=
-  match typeOf e with
-  | none => match eval e with
-            | .unsupported => .unsupported
-            | _ => .illformed
-  | some _ => eval e
+  if hasUnsupported e then .unsupported
+  else
+    match typeOf e with
+    | none => .illformed
+    | some _ => eval e
 
 /-- "the C++ result is defined" -/
 def defined (e : Expr) : Prop := ∃ v, evalTop e = .val v
